@@ -87,7 +87,7 @@ func genRefCase(r *rng, id string) *ValCase {
 	// loader documents
 	c := &ValCase{ID: id, Base: baseOpt, HSeed: 0}
 	nrem := r.intn(3)
-	var remoteURIs []string
+	var remoteURIs, canons []string
 	for i := 0; i < nrem; i++ {
 		rel := pick(r, []string{"remote", "r/deep/remote", "../other/remote"}) + fmt.Sprint(i) + ".json"
 		if !absolute {
@@ -103,14 +103,21 @@ func genRefCase(r *rng, id string) *ValCase {
 		mr = mm
 		rdoc = append(rdoc, tdoc.(DObj)...)
 		canon := ""
-		if r.chance(1, 3) {
-			canon = fmt.Sprintf("http://canon.test/c%d.json", i)
-			rdoc = append(DObj{{"$id", DStr(canon)}}, rdoc...)
+		if r.chance(1, 2) {
+			cid := pick(r, []string{fmt.Sprintf("http://canon.test/c%d.json", i), fmt.Sprintf("v2/c%d.json", i), fmt.Sprintf("../k%d.json", i), fmt.Sprintf("/root%d.json", i)})
+			canon = resolveURI(ruri, cid) // the canonical URI: $id resolved against the retrieval URI
+			rdoc = append(DObj{{"$id", DStr(cid)}}, rdoc...)
 		}
+		canons = append(canons, canon)
 		rdefs := DObj{{"inner", inner}, {"anc", anc}}
 		// links between remote documents: chains, diamonds, cycles
 		if i > 0 && r.chance(1, 2) {
-			rdefs = append(rdefs, DMem{"back", DObj{{"$ref", DStr(remoteURIs[r.intn(i)] + "#ra")}}})
+			k := r.intn(i)
+			target := remoteURIs[k]
+			if canons[k] != "" && r.chance(1, 2) {
+				target = canons[k] // an already loaded document, by its canonical URI
+			}
+			rdefs = append(rdefs, DMem{"back", DObj{{"$ref", DStr(target + "#ra")}}})
 		}
 		if r.chance(1, 3) {
 			rdefs = append(rdefs, DMem{"toroot", DObj{{"$ref", DStr(effBase + "#/$defs/" + pointerEscape(defs[0].K))}}})
@@ -286,7 +293,43 @@ func genDynCase(r *rng, id string) *ValCase {
 			root = append(root, DMem{"$defs", defs})
 		}
 	}
+	// a second route into the last resource, through another intermediate resource that may
+	// declare its own dynamic anchor: the same $dynamicRef keyword is then reached under two
+	// different dynamic scopes within one Validate call
+	two := n >= 2 && r.chance(1, 2)
+	if two {
+		mk++
+		m := fmt.Sprintf("m%d", mk)
+		markers = append(markers, m)
+		alt := DObj{{"$id", DStr(base + "alt")}, {"$ref", DStr(fmt.Sprintf("r%d", n-1))},
+			{"$defs", DObj{{"n", DObj{{"$dynamicAnchor", DStr("node")}, {"const", DStr(m)}}}}}}
+		for i := range root {
+			if root[i].K == "$defs" {
+				root[i].V = append(append(DObj{}, root[i].V.(DObj)...), DMem{"alt", alt})
+			}
+		}
+		if _, ok := root.get("$defs"); !ok {
+			root = append(root, DMem{"$defs", DObj{{"alt", alt}}})
+		}
+		// the root validates member "y" through the alternative route: {"y": {"x": marker}}
+		if pv, ok := root.get("properties"); ok {
+			for i := range root {
+				if root[i].K == "properties" {
+					root[i].V = append(append(DObj{}, pv.(DObj)...), DMem{"y", DObj{{"$ref", DStr("alt")}}})
+				}
+			}
+		} else {
+			root = append(root, DMem{"properties", DObj{{"y", DObj{{"$ref", DStr("alt")}}}}})
+		}
+	}
 	c.Doc = root
+	if two {
+		for _, m1 := range markers {
+			for _, m2 := range markers {
+				c.Insts = append(c.Insts, canonInst(DObj{{"x", DStr(m1)}, {"y", DObj{{"x", DStr(m2)}}}}))
+			}
+		}
+	}
 	// a history of calls on one Resolved: every marker, twice, interleaved with a stranger
 	for rep := 0; rep < 2; rep++ {
 		for _, m := range markers {
